@@ -111,3 +111,25 @@ pub fn scratch_dir(prefix: &str) -> std::io::Result<tempfile::TempDir> {
   }
   tempfile::Builder::new().prefix(prefix).tempdir()
 }
+
+/// One scenario of a newly added class per engine, for the evidence samples (vcore keeps the
+/// first cases it sees, whatever their class).  Set once, by the first non-trivial case of the
+/// class; read by main.rs after the engine finished.
+pub struct ClassSample {
+  taken: std::sync::atomic::AtomicBool,
+  slot: std::sync::Mutex<Option<serde_json::Value>>,
+}
+
+impl ClassSample {
+  pub const fn new() -> ClassSample {
+    ClassSample { taken: std::sync::atomic::AtomicBool::new(false), slot: std::sync::Mutex::new(None) }
+  }
+  pub fn offer<T: Serialize>(&self, scenario: &T) {
+    if !self.taken.swap(true, std::sync::atomic::Ordering::SeqCst) {
+      *self.slot.lock().unwrap() = serde_json::to_value(scenario).ok();
+    }
+  }
+  pub fn take(&self) -> Option<serde_json::Value> {
+    self.slot.lock().unwrap().take()
+  }
+}
